@@ -164,6 +164,12 @@ class DeviceInfoCache:
             del self.cache[cache_address]
             self.cache[device_info.address] = device_info
 
+        # a record that has not been seen before is added under both keys
+        if cache_id is None:
+            self.cache[device_info.deviceIdentifier] = device_info
+        if cache_address is None:
+            self.cache[device_info.address] = device_info
+
         # update the keys
         device_info._cache_keys = (device_info.deviceIdentifier, device_info.address)
 
